@@ -227,6 +227,147 @@ def body_periodic(S, loop, part):
     S.note("ticks", len(calls))
 
 
+class _Tpl:
+    def __init__(self, v):
+        self.v = v
+
+    def evaluate(self, *a, **k):
+        return self.v
+
+
+def setup_timer(part):
+    t = stubs.boot("timers")
+    t.machine.events.post("start_tm")
+    t.advance_time_and_run(0.1)
+    return t
+
+
+def teardown_timer(t):
+    stubs.shutdown(t)
+
+
+TOPS = ["start", "stop", "pause", "add", "sub", "jump", "restart", "wait", "mode_stop"]
+
+
+def body_timer(S, t, part):
+    """timer device: ticks once per interval while running, never while paused/stopped, completes exactly at the end value"""
+    m = t.machine
+    tmr = m.timers["tmr"]
+    S.now_symbolic(t.loop)
+    up = bool(S.bool("direction_up"))
+    start = S.int("start_value", -3, 6)
+    end = S.int("end_value", -3, 8)
+    interval = S.real("tick_interval", 0.5, 2)
+    pause_s = S.int("pause_secs", 1, 3)
+    roc = part.get("restart_on_complete", False)
+    tmr.direction = 'up' if up else 'down'
+    tmr.start_value, tmr.end_value, tmr.tick_secs, tmr.restart_on_complete = start, end, interval, roc
+    tmr.ticks = start
+    # control event values are templates: replace the pause value
+    for key in tmr.event_keys:
+        for rh in m.events.registered_handlers.get(key.event, []):
+            if rh.key == key.key and key.event == "tmr_pause":
+                rh.kwargs["timer_value"] = _Tpl(pause_s)
+    ev = {"tick": [], "complete": 0, "started": 0, "stopped": 0}
+    m.events.add_handler("timer_tmr_tick", lambda ticks, **kwargs: ev["tick"].append(ticks))
+    m.events.add_handler("timer_tmr_complete", lambda **kwargs: ev.__setitem__("complete", ev["complete"] + 1))
+    M = dict(ticks=start, running=False, next_tick=None, resume_at=None, completes=0, dead=False)
+
+    def done():
+        return M["ticks"] >= end if up else M["ticks"] <= end
+
+    def m_complete(now):
+        M["running"], M["next_tick"], M["resume_at"] = False, None, None
+        M["completes"] += 1
+        if roc:
+            M["ticks"] = start
+            m_start(now)
+
+    def m_start(now):
+        if M["running"] or M["dead"]:
+            return
+        if done():
+            m_complete(now) if not roc else M.__setitem__("completes", M["completes"] + 1)
+            return
+        M["running"], M["resume_at"] = True, None
+        M["next_tick"] = now + interval
+
+    def m_advance(to):
+        while True:
+            cands = [x for x in (M["next_tick"], M["resume_at"]) if x is not None]
+            for x in cands:
+                S.assume(x != to)
+            cands = [x for x in cands if x < to]
+            if not cands:
+                return
+            nxt = cands[0]
+            for x in cands[1:]:
+                S.assume(x != nxt)
+                if x < nxt:
+                    nxt = x
+            if nxt is M["resume_at"] or (M["resume_at"] is not None and nxt == M["resume_at"]):
+                M["resume_at"] = None
+                m_start(nxt)
+            else:
+                M["ticks"] += 1 if up else -1
+                M["next_tick"] = nxt + interval
+                if done():
+                    m_complete(nxt)
+    if roc:
+        S.assume(start < end if up else start > end)
+    ticked = 0
+    for i in range(part["n"]):
+        op = part["ops"][i] if i < len(part["ops"]) else TOPS[S.choice("op%d" % i, len(TOPS))]
+        now = t.loop.time()
+        m_advance(now)
+        if op == "start":
+            m.events.post("tmr_start")
+            m_start(now)
+        elif op == "stop":
+            m.events.post("tmr_stop")
+            M["running"], M["next_tick"], M["resume_at"] = False, None, None
+        elif op == "pause":
+            m.events.post("tmr_pause")
+            M["running"], M["next_tick"] = False, None
+            if not M["dead"]:
+                M["resume_at"] = now + pause_s
+        elif op in ("add", "sub", "jump") and not M["dead"]:
+            m.events.post("tmr_" + op)
+            M["ticks"] = M["ticks"] + 2 if op == "add" else (M["ticks"] - 1 if op == "sub" else 1)
+            if done():
+                m_complete(now)
+        elif op == "restart" and not M["dead"]:
+            m.events.post("tmr_restart")
+            M["ticks"] = start
+            if done():
+                m_complete(now)
+            elif not M["running"]:
+                m_start(now)
+        elif op == "mode_stop":
+            m.events.post("stop_tm")
+            M["running"], M["next_tick"], M["resume_at"], M["dead"] = False, None, None, True
+        elif op == "wait":
+            t.advance_time_and_run(S.real("wait%d" % i, 0, 3))
+        t.advance_time_and_run(0.001)
+        m_advance(t.loop.time())
+        got = (tmr.ticks, bool(tmr.running), ev["complete"])
+        want = (M["ticks"], M["running"], M["completes"])
+        if got != want:
+            clause = "timer-ticks-once-per-interval-while-running" if got[0] != want[0] else ("never-ticks-while-paused-or-stopped" if got[1] != want[1] else "timer-completes-exactly-at-end-value")
+            raise Violation(clause, "Timer." + (op if op not in ("wait", "mode_stop", "sub") else {"wait": "_timer_tick", "mode_stop": "stop", "sub": "subtract"}[op]),
+                            "after op %d %s: (ticks, running, completes) = %s, reference %s" % (i, op, got, want))
+    # run out: nothing may tick after a stop / mode stop
+    t.advance_time_and_run(4)
+    m_advance(t.loop.time())
+    got = (tmr.ticks, bool(tmr.running), ev["complete"])
+    want = (M["ticks"], M["running"], M["completes"])
+    if got != want:
+        raise Violation("never-ticks-while-paused-or-stopped" if not want[1] else "timer-ticks-once-per-interval-while-running", "Timer._timer_tick",
+                        "after the run-out: (ticks, running, completes) = %s, reference %s" % (got, want))
+    S.note("nontrivial", len(ev["tick"]) > 0 or ev["complete"] > 0)
+    S.note("ticks_seen", len(ev["tick"]))
+
+
 def scenarios(tier):
     n = 3 if tier == "quick" else 4
     seqs = []
@@ -246,5 +387,10 @@ def scenarios(tier):
         parts = [dict(kinds=s) for s in seqs]
     per = [dict(mode="run", ticks=4 if tier == "quick" else 8), dict(mode="cancel", ticks=3 if tier == "quick" else 6)]
     pb = 70 if tier == "quick" else 200
-    return [Scenario("delays", setup, body_delays, parts, teardown=teardown, part_budget=pb, per_path_timeout=30),
+    if tier == "quick":
+        tparts = [dict(ops=["start", a, b], n=3) for a in ("wait", "pause", "add") for b in ("stop", "mode_stop", "wait", "start")]
+    else:
+        tparts = [dict(ops=["start", a], n=4, restart_on_complete=r) for a in TOPS for r in (False, True)]
+    return [Scenario("timer", setup_timer, body_timer, tparts, teardown=teardown_timer, part_budget=pb, per_path_timeout=30),
+            Scenario("delays", setup, body_delays, parts, teardown=teardown, part_budget=pb, per_path_timeout=30),
             Scenario("periodic", setup, body_periodic, per, teardown=teardown, part_budget=pb, per_path_timeout=60)]
